@@ -1,7 +1,48 @@
+import Labella.Props.C12
 import Labella.Model.CalSpec
-namespace Labella.C15
-open Labella Labella.Calendar
+/-! # C15 — the time scale is affine in elapsed time and invertible
 
-theorem placeholder_epoch : civil 0 = (1970, 1, 1) := by decide
+The time scale is the linear scale applied to integer milliseconds since the epoch, so every statement is a
+corollary of C12; instants are arbitrary integers (any two distinct instants, either order). -/
+namespace Labella.C15
+open Labella Labella.Scale Labella.Calendar
+
+/-- it agrees with a linear scale applied to milliseconds since the epoch (by construction of the model; the
+correspondence check compares the real `TimeScale` with this) -/
+theorem agrees_with_linear (d0 d1 : Int) (r0 r1 : ℚ) (t : Int) :
+    timeApply d0 d1 r0 r1 t = Scale.apply false (d0 : ℚ) (d1 : ℚ) r0 r1 (t : ℚ) := rfl
+
+/-- the two domain instants map to the two range end points -/
+theorem time_endpoints (d0 d1 : Int) (r0 r1 : ℚ) (h : d0 ≠ d1) :
+    timeApply d0 d1 r0 r1 d0 = r0 ∧ timeApply d0 d1 r0 r1 d1 = r1 :=
+  C12.endpoints false _ _ r0 r1 (by exact_mod_cast h)
+
+/-- every other instant is mapped proportionally to elapsed time: the image of a duration depends only on its
+length, `scale(t₂) − scale(t₁) = (r1 − r0)·(t₂ − t₁)/(d1 − d0)` — equal durations map to equal lengths -/
+theorem time_proportional (d0 d1 : Int) (r0 r1 : ℚ) (h : d0 ≠ d1) (t1 t2 : Int) :
+    timeApply d0 d1 r0 r1 t2 - timeApply d0 d1 r0 r1 t1
+      = (r1 - r0) * (((t2 - t1 : Int) : ℚ) / ((d1 - d0 : Int) : ℚ)) := by
+  have hne : (d0 : ℚ) ≠ (d1 : ℚ) := by exact_mod_cast h
+  have hd : ((d1 : ℚ) - (d0 : ℚ)) ≠ 0 := sub_ne_zero.mpr (Ne.symm hne)
+  simp only [timeApply, C12.affine _ _ r0 r1 _ hne]
+  push_cast
+  field_simp
+  ring
+
+/-- later instants map strictly farther along the range -/
+theorem time_strict_mono (d0 d1 : Int) (r0 r1 : ℚ) (h : d0 ≠ d1) (hr : r0 ≠ r1) (t1 t2 : Int) (ht : t1 < t2) :
+    if ((d0 : ℚ) < d1 ↔ r0 < r1) then timeApply d0 d1 r0 r1 t1 < timeApply d0 d1 r0 r1 t2
+    else timeApply d0 d1 r0 r1 t2 < timeApply d0 d1 r0 r1 t1 :=
+  C12.strict_mono _ _ r0 r1 _ _ (by exact_mod_cast h) hr (by exact_mod_cast ht)
+
+/-- `invert` returns the original instant (exactly, over ℚ; to within a millisecond in floating point — sampled
+by the correspondence check) -/
+theorem time_invert (d0 d1 : Int) (r0 r1 : ℚ) (h : d0 ≠ d1) (hr : r0 ≠ r1) (t : Int) :
+    timeInvert d0 d1 r0 r1 (timeApply d0 d1 r0 r1 t) = (t : ℚ) :=
+  C12.invert_apply _ _ r0 r1 _ (by exact_mod_cast h) hr
+
+-- non-vacuity: one day mapped onto [0, 240]: 06:00 ↦ 60
+example : timeApply 0 86400000 0 240 21600000 = 60 := by
+  norm_num [timeApply, Scale.apply, interp, uninterp]
 
 end Labella.C15
